@@ -12,6 +12,7 @@ OWNERS = {
     "ReadEnumRegister": ["C05", "C09"],
     "ReadFieldListRegister": ["C05", "C09", "C15"],
     "StreamRegisterList": ["C10"],
+    "NewRegisterApi": ["C11"],
 }
 
 API_THEOREMS = {
@@ -19,6 +20,7 @@ API_THEOREMS = {
     "C09": ["C09_api_ReadNumberRegister", "C09_api_ReadTextRegister", "C09_api_ReadEnumRegister", "C09_api_ReadFieldListRegister",
             "C09_api_fieldlist_bits"],
     "C10": ["C10_api_StreamRegisterList", "C10_api_stream_product_lists"],
+    "C11": ["C11_api_NewRegisterApi"],
     "C15": ["C15_api_ReadFieldListRegister", "C15_api_fieldlist_bits"],
 }
 
